@@ -71,11 +71,34 @@ Definition link_md : metadata :=
 
 Definition msg_of (m : metadata) : list N := match signed_message m with Ok b => b | Err _ => [] end.
 
+(** a super-layout whose only step is delegated: the evidence for "sub" is the layout above
+    (signed by the functionary a1), verified against the sub-directory "sub.a1" *)
+Definition super_key := key "d4" "pubD".
+Definition super_json : json :=
+  jd [("_type", js "layout");
+      ("steps", JList [jd [("_type", js "step"); ("name", js "sub");
+                           ("expected_materials", JList []);
+                           ("expected_products", JList [jl ["ALLOW"; "*"]]);
+                           ("pubkeys", jl ["a1"]);
+                           ("expected_command", JList []);
+                           ("threshold", JInt 1)]]);
+      ("inspect", JList [jd [("_type", js "inspection"); ("name", js "final");
+                             ("expected_materials", JList []);
+                             ("expected_products", JList []);
+                             ("run", jl ["echo"; "super"])]]);
+      ("keys", jd [("a1", owner_key)]);
+      ("expires", js expires_text);
+      ("readme", js "")].
+Definition super_file : json := jd [("signed", super_json); ("signatures", JList [sig "d4" "dd"])].
+Definition super_md : metadata :=
+  match from_dict ex_b64 ex_loads super_file with Ok m => m | Err _ => root_md end.
+
 (** signature oracle: each signature value validates exactly one message under one key *)
 Definition ex_sig_ok (tok : str) (msg : list N) (v : str) : bool :=
   (eqs v (s "aa") && eqs tok (s "pubA") && eqs msg (msg_of root_md))
   || (eqs v (s "bb") && eqs tok (s "pubB") && eqs msg (msg_of link_md))
-  || (eqs v (s "cc") && eqs tok (s "pubA") && eqs msg (msg_of root_envelope)).
+  || (eqs v (s "cc") && eqs tok (s "pubA") && eqs msg (msg_of root_envelope))
+  || (eqs v (s "dd") && eqs tok (s "pubD") && eqs msg (msg_of super_md)).
 
 Lemma ex_ideal : ideal_sigs ex_sig_ok.
 Proof.
@@ -97,6 +120,10 @@ Definition ex_exec_timeout (cmd : list json) : exec_result :=
 
 Definition link_dir : dirtree := Dir [(s "build.b2.link", FJson link_file)] [].
 Definition empty_dir : dirtree := Dir [] [].
+Definition super_dir : dirtree := Dir [(s "sub.a1.link", FJson root_file)] [(s "sub.a1", link_dir)].
+Definition super_dir_no_sub : dirtree := Dir [(s "sub.a1.link", FJson root_file)] [].
+Definition keys_super : json := jd [("d4", super_key)].
+Definition cmd_super : ev := Exec [js "echo"; js "super"].
 
 Definition keys1 : json := jd [("a1", owner_key)].
 Definition keys2 : json := jd [("a1", owner_key); ("c3", other_key)].
@@ -135,3 +162,7 @@ Example ex_trace : snd (run now0 ex_exec_ok link_dir (ex_args root_md keys1 (Som
 Proof. vm_compute. reflexivity. Qed.
 Example ex_accepts_dsse : is_ok (run now0 ex_exec_ok link_dir (ex_args root_envelope keys1 (Some params))) = true.
 Proof. vm_compute. reflexivity. Qed.
+Example ex_nested : run now0 ex_exec_ok super_dir (ex_args super_md keys_super None) =
+  (fst (run now0 ex_exec_ok super_dir (ex_args super_md keys_super None)), [cmd_echo "{T}"; cmd_true; cmd_super]) /\
+  is_ok (run now0 ex_exec_ok super_dir (ex_args super_md keys_super None)) = true.
+Proof. vm_compute. split; reflexivity. Qed.
